@@ -1033,10 +1033,9 @@ pub fn run_faults<C: OrdColl>(tr: &mut Trace, paths: &[(usize, Vec<POp>)], keys:
                 }
                 dirty = true;
                 let a = s.apply(call, j);
-                if !a.unwound {
-                    break;
-                }
-                // still usable: observe everything, mutate again, observe again
+                // still usable: observe everything, mutate again, observe again.  The same follow-up
+                // is also made after the run in which no callback panicked (the control): a defect of
+                // the follow-up calls themselves then shows without any panic, too
                 s.queries();
                 let absent: Vec<i32> = (1..=keys).filter(|k| !s.mine.contains(k)).collect();
                 if let Some(k) = absent.first() {
@@ -1046,6 +1045,9 @@ pub fn run_faults<C: OrdColl>(tr: &mut Trace, paths: &[(usize, Vec<POp>)], keys:
                     s.apply(&OOp::Del { k: *k }, 0);
                 }
                 s.apply(&OOp::Get { k: 1 }, 0);
+                if !a.unwound {
+                    break;
+                }
                 j += 1;
                 if j > 200 {
                     break;
